@@ -425,9 +425,10 @@ type runner struct {
 		Update(db smt.DBReadWriter, keys [][]byte, values [][]byte) ([]byte, error)
 		Prove(db smt.DBReader, queryKeys [][]byte) (*smt.Proof, error)
 	}
-	root  []byte
-	kv    map[string][]byte
-	roots [][]byte // roots after every batch (for "another root" tamperings)
+	root    []byte
+	rawRoot []byte
+	kv      map[string][]byte
+	roots   [][]byte // roots after every batch (for "another root" tamperings)
 
 	effectiveDeletes int
 	absentDeletes    int
@@ -485,6 +486,7 @@ func (r *runner) apply(i int) string {
 		return fmt.Sprintf("batch %d: Update root %x != LIP-0039 root of the map %x (map has %d keys)", i, root, want, len(r.kv))
 	}
 	r.root = append([]byte{}, root...)
+	r.rawRoot = root // the very slice Update returned (result-lifetime check)
 	r.roots = append(r.roots, r.root)
 	return ""
 }
@@ -859,6 +861,39 @@ type proofStats struct {
 
 // checkProof: completeness, stated answers, codec round trip. Returns the honest wire proof (nil when the case
 // hit a known finding and was skipped) .
+// lastProveResult is the object Prove returned in the latest checkProof call (kept for the result-lifetime check of TestHistory).
+var lastProveResult *smt.Proof
+
+// heldProof is a Prove result that stays in the caller's hands while the trie is used further (more Prove calls, more batches):
+// the proof OBJECT, the root slice Update returned, and deep copies of both taken at the time.
+type heldProof struct {
+	qs       [][]byte
+	p        *smt.Proof
+	w        *wire
+	root     []byte
+	rootCopy []byte
+	after    int
+}
+
+// recheckHeld: every held proof must still be what it was and must still verify against the root it was generated for (seeded change
+// C11-v showed the class for the regular Merkle tree: a result that is a window of per-object scratch space verifies right after it
+// is produced and is rewritten by the next call).
+func recheckHeld(t *rapid.T, L int, held []*heldProof, when string, ctx func() string) {
+	for _, h := range held {
+		if !bytes.Equal(h.root, h.rootCopy) {
+			t.Fatalf("the root slice returned by Update after batch %d was rewritten later (%s): was %x, now %x\n%s", h.after, when, h.rootCopy, h.root, ctx())
+		}
+		now := wireOf(h.qs, h.p, h.rootCopy, L)
+		if !h.w.equal(now) {
+			t.Fatalf("a proof handed out after batch %d changed while the trie was used further (%s):\nas generated %s\nnow %s\n%s", h.after, when, h.w, now, ctx())
+		}
+		if ok, verr, pv := now.verify(); !ok || verr != nil || pv != nil {
+			t.Fatalf("a proof handed out after batch %d no longer verifies against the root it was generated for (%s): %v %v %v\n%s%s", h.after, when, ok, verr, pv, now, ctx())
+		}
+		evid.R.Label("held-proof-rechecked", 1)
+	}
+}
+
 func checkProof(t *rapid.T, r *runner, qs [][]byte, ctx func() string) (*wire, proofStats) {
 	L := r.h.L
 	var st proofStats
@@ -877,6 +912,7 @@ func checkProof(t *rapid.T, r *runner, qs [][]byte, ctx func() string) (*wire, p
 		t.Fatalf("Prove returned %d queries for %d query keys\n%s", len(p.Queries), len(qs), ctx())
 	}
 	w := wireOf(qs, p, r.root, L)
+	lastProveResult = p
 	for i, k := range qs {
 		q := w.Q[i]
 		if msmt.Present(r.kv, k) {
@@ -1407,10 +1443,12 @@ func TestHistory(t *testing.T) {
 		if len(h.Batches) > 1 && rapid.Bool().Draw(t, "midProof") {
 			proofAfter[irange(0, len(h.Batches)-2).Draw(t, "midProofAt")] = true
 		}
+		var held []*heldProof
 		for i := range h.Batches {
 			if s := r.apply(i); s != "" {
 				t.Fatalf("%s\n%s", s, ctx())
 			}
+			recheckHeld(t, h.L, held, fmt.Sprintf("after batch %d", i), ctx)
 			if !proofAfter[i] {
 				continue
 			}
@@ -1419,6 +1457,10 @@ func TestHistory(t *testing.T) {
 				qs, kinds := drawQueries(t, h.L, r.kv, pool)
 				pctx := func() string { return fmt.Sprintf("proof taken after batch %d\n%s", i, ctx()) }
 				w, st := checkProof(t, r, qs, pctx)
+				if w != nil {
+					held = append(held, &heldProof{qs: qs, p: lastProveResult, w: w, root: r.rawRoot, rootCopy: append([]byte{}, r.root...), after: i})
+					recheckHeld(t, h.L, held, fmt.Sprintf("after the next Prove following batch %d", i), ctx)
+				}
 				labels := []string{"proof", fmt.Sprintf("proof:L=%d", h.L), "proof:store=" + h.Store}
 				switch {
 				case st.present > 0 && st.absent > 0:
